@@ -32,19 +32,19 @@ CHECKS = {
          "Exploration: seeded random histories of all RWTable write operations with guards drawn from current/stale/foreign/future revisions, writes on tables not held and through finished handles, commits and aborts; every return value and the query battery (inside the transaction, after commit, after abort) is compared with the model; variants with wide fan-out keys (sweeps through every radix node size), long and deeply nested keys, and with change iterators created, read and closed between the operations (graveyard maintenance by Insert/Delete).",
          "Trusts the map model; guard 0 and re-insertion of the same pointer are outside the domain.", "5/C03"),
  "C04": ("reference-model monitor: full query battery on every index compared with results brute-forced from the model's object set (result-sequence oracle)",
-         "Exploration: seeded random histories over six schemas (unique, non-unique multi-key, NetIPPrefix LPM with IPv4/IPv6/4in6 and comb-shaped prefix sets, unique LPM, wide fan-out with sweeps through every radix node size, long and deeply nested keys) with hostile keys; Get/List/Prefix/LowerBound/All/NumObjects/by-revision and AnyTable string queries inside write transactions and on snapshots.",
+         "Exploration: seeded random histories over six schemas (unique, non-unique multi-key, NetIPPrefix LPM with IPv4/IPv6/4in6 and comb-shaped prefix sets, unique LPM, wide fan-out with sweeps through every radix node size, long and deeply nested keys) with hostile keys; Get/List/Prefix/LowerBound/All/NumObjects/by-revision, AnyTable string queries, WriteJSON and Indexes() inside write transactions and on snapshots; query results obtained from write transactions ranged after later writes, after Commit/Abort and during later transactions; a quarter of the histories also queried through the HTTP handler and RemoteTable.",
          "Trusts the brute-force model; LPM Get/List only with full-length keys and stored prefixes; nil keys mean 'no key'.", "5/C04"),
  "C07": ("change-stream monitor: per-iterator replay map and the model's committed write/deletion log, under virtual time with graveyard collection running; hook-point probe of the commit window; Observable stream; real-time consumer goroutines under the race detector",
          "Exploration: seeded random histories under testing/synctest (collector every 1 ms of virtual time): iterators created at arbitrary points incl. inside transactions and aborted ones, Next with fresh/older/write transactions, partial consumption, Close; strictly increasing revisions, only-committed, replay==snapshot, deletions delivered, open channel closed by the next commit.",
          "Snapshots passed to Next are monotone and not older than the iterator. Under real concurrency whether Next's channel was already closed cannot be observed reliably, so convergence is judged after a non-empty fully drained sequence and at the final quiescent state; the missed-wake-up window (Next between root store and notification) is enumerated with the committer paused at the hook points.", "5/C07"),
  "C09": ("revision monitor: the model learns each revision from Revision(wtxn) and asserts strict monotonicity, attribution, no change on rejected/no-op/aborted/collector/tracker commits, ByRevision order",
-         "Exploration: seeded random histories (sequential) plus histories with change iterators, Close and graveyard collection commits under virtual time, plus a -race part with one writer per table, revision samplers, iterator churn, the collector and a goroutine registering tables (revision constant within a snapshot, non-decreasing across snapshots and commits, never below the last committed one).",
+         "Exploration: seeded random histories (sequential) plus histories with change iterators, Close and graveyard collection commits under virtual time, plus a -race part with one writer per table, revision samplers, iterator churn, the collector and a goroutine registering tables (revision constant within a snapshot, non-decreasing across snapshots and commits, never below the last committed one); revisions reported through RemoteTable in a quarter of the sequential histories.",
          "Revisions are required to be strictly increasing, not +1.", "5/C09"),
  "C05": ("hook-point pause/probe controller (fault enumeration of interleavings) + race-detector stress with delay injection, table-holder and lock-order monitors, sequence-counter conservation and porcupine strict-serializability check of recorded histories",
-         "Fault enumeration: writer A is paused at each of 9 hook points (commit and abort variants) while a same-table writer, a disjoint-table writer or NewTable runs; plus 4 probes of write transactions with an empty table set; plus exploration by concurrent histories under -race with delays injected at the hook points, every history checked by porcupine against a counter-vector model, and by full-speed disjoint writers (32 tables, 320 000 back-to-back commits per run, registrar and empty-set committer running) each checking that it starts from what it committed last.",
+         "Fault enumeration: writer A is paused at each of 9 hook points (commit and abort variants) while a same-table writer, a disjoint-table writer or NewTable runs; plus 4 probes of write transactions with an empty table set and a writer holding every table against empty-set committers; plus exploration by concurrent histories under -race with delays injected at the hook points, every history checked by porcupine against a counter-vector model, and by full-speed disjoint writers (32 tables, 320 000 back-to-back commits per run, registrar and empty-set committer running) each checking that it starts from what it committed last.",
          "Windows without a hook point are reached only by the stress part; the 'B must not be granted' probe waits 1.5 ms (reaching the lock is definite, not reaching it just ends the probe); porcupine timeouts are inconclusive.", "5/C05"),
  "C10": ("lock-order monitor (lockdep style) on every table-lock acquisition + hook-point independence probes + race-detector stress with progress watchdog and hook-derived wait-for snapshot",
-         "Fault enumeration: with a writer paused at each of 9 hook points, readers, disjoint committers, iterator create/close and duplicate/unordered table sets must complete (committers may queue at commit.rootLocked); exploration: 2-32 goroutines over 2-8 tables with iterators, 1 ms collection and table registration under -race; a WriteTxn refused for an unregistered table and the library's db/insert and db/delete script commands on every exit path must leave all tables lockable; strictly increasing lock sequence numbers are asserted on every acquisition, which catches ordering/de-duplication bugs on every execution rather than only when a deadlock happens.",
+         "Fault enumeration: with a writer paused at each of 9 hook points, readers, disjoint committers, iterator create/close and duplicate/unordered table sets must complete (committers may queue at commit.rootLocked); exploration: 2-32 goroutines over 2-8 tables with iterators, 1 ms collection and table registration under -race; a WriteTxn refused for an unregistered table, the library's db/insert and db/delete script commands on every exit path, a Derive job stopped idle or in mid-batch, and a collector whose scanned objects were all resurrected must leave all tables lockable; strictly increasing lock sequence numbers are asserted on every acquisition, which catches ordering/de-duplication bugs on every execution rather than only when a deadlock happens.",
          "A watchdog firing without wait-for evidence is reported inconclusive; bounded progress = the fixed operation count completes.", "5/C10"),
  "C02": ("hook-point pause/probe controller: snapshots taken by a second goroutine while the writer is paused at every step inside Commit/Abort (all-or-none + conserved sum); abort-vs-never-ran model comparison over random histories; race-detector stress with conserved sums, per-tag all-or-none and porcupine",
          "Fault enumeration over the 10 pause points of WriteTxn/Commit/Abort with 2-4 table transactions, plus exploration: aborted transactions of every operation kind (incl. initializer registrations and completions, writes on tables not held) compared with the model in which they never ran (battery on every index, revisions, initialization state, retained watch channels, retained snapshots, behaviour of later transactions; a write transaction used as a snapshot of tables it does not hold must not see later commits through Next), plus concurrent transfer workloads under -race whose every snapshot must show the conserved total and all-or-none of each transaction's rows.",
@@ -65,7 +65,7 @@ CHECKS = {
          "Exploration: the C14 runs with every placement of user writes {between rounds, inside Update/Delete/UpdateBatch, between the operation and the status commit} x {update, delete, delete+re-insert, status-only by a second reconciler} x {success, failure}; invariants evaluated at every quiescent point; a third of the runs use a copy-returning status setter; sequential runs in which user transactions keep the table locked for a while of virtual time while the reconciler and the refresher wait (hook gate); in a third of the runs 1-4 further real reconcilers share the table (their statuses must be backed by their own attempts); plus a value-semantics part for StatusSet (Set/Pending/JSON on a pool of versions, every earlier version re-read).",
          "The model of user writes is updated under the table lock; quiescent points are synctest.Wait() after sleeping.", "5/C15"),
  "C16": ("virtual-time monitor over the timestamps of operation attempts and the values returned by WaitUntilReconciled, exact in pacing runs",
-         "Exploration: general runs check the lower bound (no retry sooner than RetryBackoffMin), that WaitUntilReconciled(rev) never returns nil before every still-current change <= rev was attempted, and every returned zero watermark against the round log (an untouched object that failed three rounds ago must show); pacing runs (instantaneous operations, unlimited limiter) check non-shrinking waits, the cap, the fresh first wait after change/success and the exact low-watermark at quiescent points.",
+         "Exploration: general runs check the lower bound (no retry sooner than RetryBackoffMin), that WaitUntilReconciled(rev) never returns nil before every still-current change <= rev was attempted, and every returned zero watermark against the round log (an untouched object that failed three rounds ago must show); streak runs check the waits of 25-45 consecutive failures under backoffs up to 1 h / 24 h; pacing runs (instantaneous operations, unlimited limiter) check non-shrinking waits, the cap, the fresh first wait after change/success and the exact low-watermark at quiescent points.",
          "A status-only write by another reconciler between a failure and the next attempt makes that pair unjudged (both immediate reprocessing and paced retry are legitimate); the lower bound is judged in runs without refreshing and without further real reconcilers (their writes are not in the event log) and exactly in the pacing runs; 'change up to rev' is read by revision: an object that another writer moved to a revision above rev is a later change; watermark model = revision argument of the oldest pending failed attempt.", "5/C16"),
 }
 
